@@ -6,34 +6,42 @@ theorems hold for BOTH verdicts, hence for whatever the floating-point heuristic
 namespace Llir.Props.C09
 open Llir Llir.Digits Llir.IntLit
 
-/-- Every width other than i1, every integer value, either notation: the printed literal parses back
+/-- Every width (i1 included), every integer value, either notation: the printed literal parses back
     to exactly the same value. -/
-theorem ident_roundtrip (w : Nat) (hw : w ≠ 1) (x : Int) (useHex : Bool) :
+theorem ident_roundtrip (w : Nat) (x : Int) (useHex : Bool) :
     ∃ s, identIntWith useHex w x = .ok s ∧ newIntFromString w s = .ok x := by
   unfold identIntWith
-  have hw' : (w == 1) = false := by simpa using hw
-  simp only [hw', Bool.false_eq_true, if_false]
-  by_cases hx : (decide (x ≥ 4096) && useHex) = true
-  · simp only [hx, if_true]
-    refine ⟨_, rfl, ?_⟩
-    have hge : x ≥ 4096 := by
-      have := hx; simp at this; exact this.1
-    have := parse_u0x_gen w (natTextUpper 16 x.natAbs) x.natAbs (setString16_natTextUpper _)
-    rw [this]; congr 1
-    simp only [Int.ofNat_eq_natCast]; omega
-  · simp only [hx, if_false]
-    exact ⟨_, rfl, parse_decimal w x⟩
+  by_cases h0 : (w == 1 && x == 0) = true
+  · simp only [h0, if_true]
+    have hw : w = 1 := by simp only [Bool.and_eq_true, beq_iff_eq] at h0; exact h0.1
+    have hx : x = 0 := by simp only [Bool.and_eq_true, beq_iff_eq] at h0; exact h0.2
+    subst hw; subst hx
+    exact ⟨pfxFalse, rfl, by decide⟩
+  · simp only [h0, Bool.false_eq_true, if_false]
+    by_cases h1 : (w == 1 && x == 1) = true
+    · simp only [h1, if_true]
+      have hw : w = 1 := by simp only [Bool.and_eq_true, beq_iff_eq] at h1; exact h1.1
+      have hx : x = 1 := by simp only [Bool.and_eq_true, beq_iff_eq] at h1; exact h1.2
+      subst hw; subst hx
+      exact ⟨pfxTrue, rfl, by decide⟩
+    · simp only [h1, Bool.false_eq_true, if_false]
+      by_cases hx : (decide (x ≥ 4096) && useHex) = true
+      · simp only [hx, if_true]
+        refine ⟨_, rfl, ?_⟩
+        have hge : x ≥ 4096 := by
+          have := hx; simp at this; exact this.1
+        have := parse_u0x_gen w (natTextUpper 16 x.natAbs) x.natAbs (setString16_natTextUpper _)
+        rw [this]; congr 1
+        simp only [Int.ofNat_eq_natCast]; omega
+      · simp only [hx, if_false]
+        exact ⟨_, rfl, parse_decimal w x⟩
 
-/-- i1: the two values the printer supports round-trip (`false`, `true`). -/
-theorem ident_roundtrip_i1_partial (x : Int) (hx : x = 0 ∨ x = 1) (useHex : Bool) :
-    ∃ s, identIntWith useHex 1 x = .ok s ∧ newIntFromString 1 s = .ok x := by
-  rcases hx with rfl | rfl
-  · exact ⟨pfxFalse, by cases useHex <;> decide, by decide⟩
-  · exact ⟨pfxTrue, by cases useHex <;> decide, by decide⟩
-
-/-- The full i1 statement is FALSE for the code as it is: `i1 -1` (valid LLVM) makes `Ident` panic. -/
-theorem ident_i1_minus_one_panics (useHex : Bool) : identIntWith useHex 1 (-1) = .panic := by
-  cases useHex <;> decide
+/-- i1: 0 and 1 are spelled `false` and `true`; every other value (the parser accepts `i1 -1`) is
+    spelled as a number (this used to panic; repaired by a fix commit) -/
+theorem ident_i1 (useHex : Bool) :
+    identIntWith useHex 1 0 = .ok pfxFalse ∧ identIntWith useHex 1 1 = .ok pfxTrue ∧
+    identIntWith useHex 1 (-1) = .ok (intText 10 (-1)) := by
+  cases useHex <;> simp [identIntWith]
 
 /-! ## every accepted notation denotes the mathematically correct value -/
 
